@@ -1,5 +1,7 @@
 import CLModel.Proto
 import CLModel.Checks.Base
+import CLModel.Compare.Pipeline
+import CLModel.Ops.C04
 namespace Ops.C05
 open Proto
 
@@ -12,5 +14,72 @@ def opBase (toks : List String) : String :=
     | none => "bad-args"
   | _ => "bad-args"
 
-def ops : List (String × (List String → String)) := [("basecheck", opBase)]
+/-! ### the composed pipeline (CLModel/Compare/Pipeline.lean) -/
+
+def parseFmt : String → Option P.Fmt
+  | "properties" => some .properties
+  | "dtd" => some .dtd
+  | "ini" => some .ini
+  | "inc" => some .inc
+  | "po" => some .po
+  | _ => none
+
+def showCat : ObsM.Cat → String
+  | .error => "error" | .warning => "warning" | .missingEntity => "missingEntity" | .obsoleteEntity => "obsoleteEntity"
+  | .missingFile => "missingFile" | .obsoleteFile => "obsoleteFile" | .other => "other"
+
+def showRet : ObsM.Ret → String
+  | .error => "error" | .warning => "warning" | .ignore => "ignore"
+
+def showOptText : Option (List Nat) → String
+  | some t => showText t
+  | none => "N"
+
+def showData : ObsM.Data → String
+  | .none => "N"
+  | .str t => "s" ++ showText t
+  | .tuple ps => "T" ++ "/".intercalate (ps.map showOptText)
+
+def showDVal : ObsM.DVal → String
+  | .ret r => "r" ++ showRet r
+  | .data d => showData d
+
+/-- canonical text of a report:
+    `ok summary[<locale>:<errors>,<warnings>,…,<keys>;…] details[<path>:<cat>=<data>|…;…] merge=<outcome>` -/
+def showReport (r : Pipe.Report) : String :=
+  let summ := ";".intercalate (r.summary.map (fun p =>
+    showOptText p.1 ++ ":" ++ ",".intercalate (p.2.map (fun kv => toString kv.2))))
+  let det := ";".intercalate (r.details.map (fun p =>
+    "/".intercalate (p.1.map showText) ++ ":" ++ "|".intercalate (p.2.map (fun d => showCat d.1 ++ "=" ++ showDVal d.2))))
+  s!"ok summary[{summ}] details[{det}] merge={Ops.C04.showOutcome r.merge}"
+
+/-- c05.compare <fmt> <ref> <l10n> <merge 0|1> -/
+def opCompare (toks : List String) : String :=
+  match toks with
+  | [f, r, l, m] =>
+    match parseFmt f, parseText r, parseText l with
+    | some f, some r, some l =>
+      match Pipe.compareTexts f r.toArray l.toArray (m == "1") with
+      | .ok rep => showReport rep
+      | .error e => "raise " ++ e.name
+    | _, _, _ => "bad-args"
+  | _ => "bad-args"
+
+def showLintResult (r : Lint.Result) : String :=
+  s!"{r.lineno},{r.column},{showText r.level},{showText r.message}"
+
+/-- c05.lint <fmt> <ref | -> <cur> -/
+def opLint (toks : List String) : String :=
+  match toks with
+  | [f, r, c] =>
+    match parseFmt f, (if r == "-" then some none else (parseText r).map some), parseText c with
+    | some f, some r, some c =>
+      match Pipe.lintText f (r.map List.toArray) c.toArray with
+      | .ok rs => "ok " ++ "|".intercalate (rs.map showLintResult)
+      | .error e => "raise " ++ e.name
+    | _, _, _ => "bad-args"
+  | _ => "bad-args"
+
+def ops : List (String × (List String → String)) :=
+  [("basecheck", opBase), ("c05.compare", opCompare), ("c05.lint", opLint)]
 end Ops.C05
